@@ -7,6 +7,8 @@ import tlc
 import ol
 
 ASSUME = [
+    "configurations fsauth_basic / fsauth_stealth: authenticated filesystem services, driven with the faults up to Tor's answer to the "
+    "SETCONF only (config, bind, reject, disconnect while the command is outstanding)",
     "noise 'fetchfail': HS_DESC FAILED events for this service's own address that report a failed descriptor *fetch* (REASON=NOT_FOUND, "
     "a directory no upload was announced to) arrive while the creation command is outstanding and during the wait; they decide nothing",
     "endpoint configurations: ephemeral v3 / v2 with a supplied key / single-hop / with local_port=, filesystem with explicit and implicit "
@@ -37,6 +39,8 @@ def run(pid, tier, seed):
     for cfg in ol.configurations():
         for fault in ol.SCRIPTS:
             if fault == "invalid" or (cfg.startswith("tor_") and fault == "config"):
+                continue
+            if cfg.startswith("fsauth_") and fault not in ("config", "bind", "reject", "disconnect_create"):
                 continue
             for noise in ("", "up", "fail", "fetchfail"):
                 traces.append(ol.replay(cfg, fault, noise))
